@@ -54,7 +54,25 @@ func materialise(ents []entry) (root string, err error) {
 		case 'L':
 			err = os.Symlink(filepath.Join(root, "tdir"), p)
 		case 'x':
-			err = os.Symlink(filepath.Join(root, "does-not-exist"), p)
+			// dangling in one of four ways, chosen by the name: the target does not exist
+			// (ENOENT), lies "under" a regular file (ENOTDIR), has a component longer than
+			// NAME_MAX (ENAMETOOLONG), or the link points at itself (ELOOP)
+			hsum := 0
+			for _, c := range []byte(e.name) {
+				hsum = hsum*31 + int(c)
+			}
+			switch (hsum & 0x7fffffff) % 4 {
+			case 0, 1:
+				err = os.Symlink(filepath.Join(root, "does-not-exist"), p)
+			case 2:
+				err = os.Symlink(filepath.Join(root, "regfile", "below"), p)
+			default:
+				if len(e.name)%2 == 0 {
+					err = os.Symlink(filepath.Join(root, strings.Repeat("n", 300)), p)
+				} else {
+					err = os.Symlink(p, p)
+				}
+			}
 		case 'v':
 			err = os.Symlink("/dev/null", p) // a link to something that is neither a file nor a directory
 		default:
